@@ -115,6 +115,20 @@ def extract(g, spec, lenient=False):
             out[path]['ctl'] = CT.ctl_fingerprint(f2, summ)
             out[path]['carried'] = CT.carried_locals(f2)
             out[path]['flow'] = CT.flow_fingerprint(f2, summ)
+            # closures are bodies of their own: their content belongs to the row of the function that contains them
+            cl = {}
+            stack_ = list(g.closures_of.get(path, []))
+            while stack_:
+                cp = stack_.pop()
+                cf = g.fns.get(cp)
+                if cf is None:
+                    continue
+                stack_ += g.closures_of.get(cp, [])
+                cw, cc, ce = summ.summarize_blocks(cf, cf.reach, 1, depth=0)
+                cl[cp[len(path):]] = {'calls': sorted(cc), 'errs': sorted(ce), 'ctl': CT.ctl_fingerprint(cf, summ),
+                                      'flow': CT.flow_fingerprint(cf, summ)}
+            if cl:
+                out[path]['closures'] = cl
         return out
     ef = E.Eff(g, extra_atoms=spec.get('extra_atoms'))
     if kind == 'fneff':
@@ -274,6 +288,10 @@ def row_diff(got, ref):
                 only_code = [x for x in a if x not in b]
                 only_ref = [x for x in b if x not in a]
                 parts.append('%s: only in code %s; only in reviewed table %s' % (k, json.dumps(only_code), json.dumps(only_ref)))
+            elif isinstance(a, dict) and isinstance(b, dict):
+                for ck in sorted(set(a) | set(b)):
+                    if a.get(ck) != b.get(ck):
+                        parts.append('%s%s: %s' % (k, ck, row_diff(a.get(ck, {}), b.get(ck, {}))))
             else:
                 parts.append('%s: code %s != reviewed %s' % (k, json.dumps(a), json.dumps(b)))
         return '; '.join(parts)
